@@ -169,11 +169,13 @@ class Cap(GateListener):
     def __init__(self) -> None:
         super().__init__()
         self.rows: Dict[str, List[Dict[str, Any]]] = {}
+        self.dtype: Dict[str, str] = {}          # class name of the native table handed to the group's calculation
 
     def on_enter(self, group: str, names: List[str], cols: List[str], data: Any, features: Any = None) -> None:
         super().on_enter(group, names, cols, data, features)
         if data is not None:
             self.rows[group] = table_rows(data)
+            self.dtype[group] = type(data).__name__
 
 
 def norm(v: Any) -> Optional[int]:
@@ -509,6 +511,10 @@ def one(spec: Dict[str, Any], cap: Optional[Cap] = None, modes: Any = None) -> D
     rec["status"] = o["status"]
     rec["exc"] = str(o.get("exc"))[-160:] if o["status"] == "raised" else None
     rec["rows"] = cap.rows.get("D1")
+    # the framework the consumer was planned on / the native table type it was handed / the JoinSteps' roles (family both_frameworks)
+    rec["consumer_cfw"] = sorted({s["cfw"] for s in plan["steps"] if s["kind"] == "FG" and s["group"] == "D1"})
+    rec["consumer_dtype"] = cap.dtype.get("D1")
+    rec["joins"] = [{"jt": s["jt"], "left_cfw": s["left_cfw"], "right_cfw": s["right_cfw"], "link": s["link"]} for s in plan["steps"] if s["kind"] == "JOIN"]
     # routing model input (Model/RoutingJ.v): begun steps in begin order + observed footprints; consumer step id
     if o["status"] != "hang":
         rec["route"] = routing_j.terms_x(spec, plan, o["begin_order"], {int(k): v for k, v in o["foot"].items()})
@@ -598,8 +604,10 @@ def run(rep: vlib.Reporter, tier: str, seed: int) -> None:
     rep.proof(pr5)
     pr6 = vlib.build_props("C05keys")         # the JoinStep's merge call: keys follow the Link; frame theorem over rel_join
     rep.proof(pr6)
-    pr.ok = pr.ok and pr2.ok and pr3.ok and pr4.ok and pr5.ok and pr6.ok
-    pr.failed_files += pr2.failed_files + pr3.failed_files + pr4.failed_files + pr5.failed_files + pr6.failed_files
+    pr7 = vlib.build_props("C05both")         # a consumer ADMITTING several frameworks: planned on the left source's framework, roles kept (Model/PlannerLM.v)
+    rep.proof(pr7)
+    pr.ok = pr.ok and pr2.ok and pr3.ok and pr4.ok and pr5.ok and pr6.ok and pr7.ok
+    pr.failed_files += pr2.failed_files + pr3.failed_files + pr4.failed_files + pr5.failed_files + pr6.failed_files + pr7.failed_files
     rep.coverage["trusted_base"] += [
         "Spec/Rel.v (rel_join) is the relational specification and the oracle of record (evaluated by vm_compute)",
         "Model/RoutingJ.v is a hand-written model of the run-time side of joins (registry lookups with cfw_merge_relation / "
@@ -609,8 +617,11 @@ def run(rep: vlib.Reporter, tier: str, seed: int) -> None:
         "right source are hand-written; own_okb is evaluated on the steps of every run of the shared_source family (begin order, "
         "set-iteration orders of the step objects that ran); tkey_eqb mirrors TransformFrameworkStep.__eq__ (tied by C04's planner "
         "correspondence, Model/PlannerL.tfs_key_eqb, not here)",
-        "the planner (run_link, resolve_trekked_links, invert_link, fill_tfs_by_joinstep) is NOT modelled for requests with Links: "
-        "plans are exported; the merge kernels (the engines JoinStep._merge_data calls) are C12's subject",
+        "the planner (run_link, resolve_trekked_links, invert_link, fill_tfs_by_joinstep) is modelled by Model/PlannerL.v (C04's planner "
+        "correspondence) and, for consumers ADMITTING several frameworks, Model/PlannerLM.v (hand-written: the admitted sets are the initial map of "
+        "ResolveComputeFrameworks.links; tied by the both_frameworks family: every stage of the real preparation = the model, observed plan "
+        "satisfies the statement of PlannerL_two_root_both_frameworks); in the other families plans are exported; the merge kernels (the engines "
+        "JoinStep._merge_data calls) are C12's subject",
         "Model/JoinCall.v (JoinStep._merge_data = engine(link.jointype, link.left_index, link.right_index) on (table of the object "
         "merged into, table read)) is hand-written; tied by the cross_over family: rows received (value columns) = merge_data rel_join "
         "(the Link) in Coq, = the rows received without the cross-over columns, = the table the run-time model computes",
@@ -818,7 +829,12 @@ def run(rep: vlib.Reporter, tier: str, seed: int) -> None:
     from harness import c05_cross
     n_x, found_x, dist["cross_over"] = c05_cross.run_family(rep, rng, big)
     found = found or found_x
-    rep.count(len(recs) + len(drecs) + len(arecs) + n_sh + n_x)
+    # family both_frameworks (harness/c05_both.py): the consumer ADMITS several frameworks (compute_framework_rule returns a set); rows
+    # against rel_join, the real preparation against Model/PlannerLM.v, the observed plan against Props/C05both.v
+    from harness import c05_both
+    n_b, found_b, dist["both_frameworks"] = c05_both.run_family(rep, rng, big)
+    found = found or found_b
+    rep.count(len(recs) + len(drecs) + len(arecs) + n_sh + n_x + n_b)
     dist["dimensions"] = counters
     dist["equal_to_spec_by_dimension"] = correct_by
     rep.add("distribution", dist)
@@ -856,6 +872,9 @@ def replay(path: str) -> int:
     if r.get("kind") == "cross":
         from harness import c05_cross
         return c05_cross.replay(r)
+    if r.get("kind") == "both":
+        from harness import c05_both
+        return c05_both.replay(r)
     if r.get("kind") == "append":
         rec = one(spec)
         print(json.dumps({k: rec.get(k) for k in ("status", "exc", "rows")}, indent=1, default=str))
